@@ -193,7 +193,7 @@ class C12(Prop):
                 # ---------------- the failing call
                 flt = [f for f in w.fired if f["fault"]["op"] == i and f["fault"]["kind"] != "spike"][0]
                 e = snap["exc"]
-                injected = [x for x in w.raised]
+                injected = list(w.raised_by_op.get(i, []))        # the fault of THIS call (an earlier call's fault is not its cause)
                 if e is None:
                     # the library swallowed the fault: only legal if it was a spike-like, never for raise/kbdint
                     bad("raises", "a peer raised in op %d (%s@%d) but integrate() returned normally" % (i, flt["fault"]["seam"], flt["fault"]["at"]), i)
@@ -212,6 +212,9 @@ class C12(Prop):
                             bad("carries_cause", "the raised %s does not carry the injected exception in its cause chain" % type(e).__name__, i)
                         if "failed" not in snap["status"]:
                             bad("status_reports_failure", "status after failure: %r" % snap["status"][:80], i)
+                        elif injected and carries and any(e.__cause__ is x for x in injected) and not any(str(x) in snap["status"] for x in injected):
+                            # (a fault inside the terminal-event roll-back is wrapped twice; the status text shows one level only)
+                            bad("status_reports_failure", "status does not describe this call's failure: %r" % snap["status"][-90:], i)
                     if snap["success"]:
                         bad("status_reports_failure", "success is True after a failed call", i)
                 # prefix of the twin (only while the histories have not diverged)
